@@ -213,19 +213,22 @@ def main():
     real_fail = []
     kf_lines = []
     for (n, mod, mm, fm, v) in failed:
-        oid = f"{n}::{norm_hdr(mm.get('header'))}::{fm['fn']}"
+        oid = f"{n}::{norm_hdr(mm.get('header'))}::{fm.get('display', fm['fn'])}{fm.get('variant', '')}"
         if oid in kf_obl:
             kf_lines.append((oid, kf_obl[oid]))
         else:
             real_fail.append((n, mod, mm, fm, v, oid))
 
-    n_obl = len(wanted) + len(extra_obls)
+    # obligations listed as known findings (expected to fail, their region-guarded twins must verify) are reported
+    # separately and are not part of the proof-level count
+    n_kf = len(kf_lines)
+    n_obl = len(wanted) + len(extra_obls) - n_kf
     n_dis = len([1 for w in wanted if w[4] and w[4]["status"] in ("verified", "verified-trivially")]) + \
         len([1 for o in extra_obls if o["status"] == "verified"])
 
     samples = []
     for (n, mod, mm, fm, v) in wanted:
-        samples.append(dict(unit=n, obligation=f"{mm.get('file')} :: {mm.get('header')} :: {fm['fn']}",
+        samples.append(dict(unit=n, obligation=f"{mm.get('file')} :: {mm.get('header')} :: {fm.get('display', fm['fn'])}{fm.get('variant', '')}",
                             lines=fm.get("lines"), sha256=fm.get("sha256", "")[:16], backend="verus/z3",
                             status=(v or {}).get("status", "missing"), smt_time_us=(v or {}).get("time_us", 0),
                             rlimit=(v or {}).get("rlimit", 0), rules=[r["rule"] for r in fm.get("rules", [])]))
@@ -255,6 +258,7 @@ def main():
                                         generated_sha256=(results[(n, False)].meta or {}).get("generated_sha256", ""))
                                    for n in us],
                             functions_under_contract=len(wanted),
+                            known_findings=[dict(obligation=o, text=k.get("text", "")) for (o, k) in kf_lines],
                             cover_twins_checked=(0 if a.no_cover else len(wanted)),
                             vacuous=vac,
                             samples=samples,
@@ -318,7 +322,7 @@ BASELINE = os.path.join(ROOT, "baseline", "obligations.json")
 
 
 def obl_key(n, mm, fm):
-    return f"{n}::{mm.get('file')}::{norm_hdr(mm.get('header'))}::{fm['fn']}"
+    return f"{n}::{mm.get('file')}::{norm_hdr(mm.get('header'))}::{fm.get('display', fm['fn'])}{fm.get('variant', '')}"
 
 
 def load_baseline():
